@@ -37,6 +37,8 @@ GLOBALS = {
     'char_class_table': 'ada::url_pattern_helpers::char_class_table',
     'is_forbidden_domain_code_point_table__idna': 'ada::idna::is_forbidden_domain_code_point_table',
     'max_domain_input_bytes': 'ada::idna::max_domain_input_bytes',
+    'base': 'ada::idna::base', 'tmin': 'ada::idna::tmin', 'tmax': 'ada::idna::tmax', 'skew': 'ada::idna::skew', 'damp': 'ada::idna::damp',
+    'initial_bias': 'ada::idna::initial_bias', 'initial_n': 'ada::idna::initial_n',
 }
 
 COMP = '{%uU,%uU,%uU,%uU,%uU,%uU,%uU,%uU}'
